@@ -582,7 +582,8 @@ def is_valid_python(source: str) -> bool:
     try:
         ast.parse(source)
         return True
-    except SyntaxError:
+    except (SyntaxError, ValueError, RecursionError, MemoryError):
+        # ValueError: null bytes, lone surrogates. RecursionError: too deeply nested for the parser.
         return False
 
 
@@ -605,7 +606,7 @@ def is_compilable(source: str) -> bool:
             warnings.simplefilter("ignore")  # e.g. invalid escape sequences
             compile(source, "<unknown>", "exec", dont_inherit=True)
         return True
-    except (SyntaxError, ValueError):
+    except (SyntaxError, ValueError, RecursionError, MemoryError):
         return False
 
 
